@@ -71,6 +71,11 @@ func serve(rig *blkrig.Rig, srcroot, dstroot string, h base.Height, m base.Block
 		}
 	}
 
+	// the callers of the importer (syncer, import command) validate the served map
+	if err := m.IsValid(rig.NetworkID); err != nil {
+		return false, fmt.Errorf("served map is not valid: %w", err)
+	}
+
 	mst := leveldbstorage.NewMemStorage()
 	defer mst.Close()
 
@@ -240,6 +245,38 @@ func oracle(b *blkrig.Block) (broken []string) {
 	}
 
 	return broken
+}
+
+// mapWithout re-signs the block map (same manifest, same checksums) without
+// the given item types.
+func mapWithout(rig *blkrig.Rig, m base.BlockMap, drop ...base.BlockItemType) (base.BlockMap, error) {
+	nm := isaacblock.NewBlockMap()
+
+	var serr error
+
+	m.Items(func(item base.BlockMapItem) bool {
+		for _, d := range drop {
+			if item.Type() == d {
+				return true
+			}
+		}
+
+		serr = nm.SetItem(isaacblock.NewBlockMapItem(item.Type(), item.Checksum()))
+
+		return serr == nil
+	})
+
+	if serr != nil {
+		return nil, serr
+	}
+
+	nm.SetManifest(m.Manifest())
+
+	if err := nm.Sign(rig.Local.Address(), rig.Local.Privatekey(), rig.NetworkID); err != nil {
+		return nil, err
+	}
+
+	return nm, nil
 }
 
 func newStates(h base.Height, n int) []base.State {
@@ -459,7 +496,7 @@ func variants(rig *blkrig.Rig) []variant {
 func TestC16(t *testing.T) {
 	r := vlib.Start(t, "C16", vlib.LevelExploration)
 	defer r.Finish()
-	r.SetRule("case = one block served item by item to the real isaacblock.BlockImporter (NewBlockImporter, WriteItem per item of the served map, Save, deferred merge); honest = block written by the real Writer+LocalFSWriter; tampered = the same block with one item (pair) replaced, written again through LocalFSWriter so that checksums are recomputed and the map (same manifest) is re-signed by the serving node; controls: stale checksum (honest map, tampered files), voteproofs of another height; when stored, the imported files are judged by isaacblock.IsValidBlockFromLocalFS and by an independent recomputation of the statement's clauses; distinct = (kind, world, height, #ops, #states); non-trivial = every case")
+	r.SetRule("case = one block served item by item to the real isaacblock.BlockImporter (NewBlockImporter, WriteItem per item of the served map, Save, deferred merge); honest = block written by the real Writer+LocalFSWriter; tampered = the same block with one item (pair) replaced, written again through LocalFSWriter so that checksums are recomputed and the map (same manifest) is re-signed by the serving node; degenerate variants with whole items (states, operations, trees) stripped from the re-signed map; controls: stale checksum (honest map, tampered files), voteproofs of another height; a served map must pass BlockMap.IsValid first, as the importer's callers demand; when stored, the imported files are judged by isaacblock.IsValidBlockFromLocalFS and by an independent recomputation of the statement's clauses; distinct = (kind, world, height, #ops, #states); non-trivial = every case")
 	r.Assume("stored = BlockImporter.Save and its deferred merge returned nil (block write database on memory storage, merge callback a no-op)")
 	r.Assume("independent oracle: operations item = the in-state nodes of a valid operations tree whose root is manifest.OperationsTree (not-in-state nodes need no stored operation, as the real Writer does not store them); states item = exactly the keys of a valid states tree whose root is manifest.StatesTree, all at the manifest height; proposal fact hash = manifest.Proposal; both voteproofs at the manifest height and at one and the same point (height and round; the manifest itself carries no round, and the round of the proposal is not compared, since voteproofs of a suffrage majority for this very block at another round cannot exist without that majority signing them); ACCEPT majority's new block = manifest.Hash")
 
@@ -583,6 +620,29 @@ func TestC16(t *testing.T) {
 
 			if honestKind != "honest" {
 				continue
+			}
+
+			// degenerate variants: whole items stripped from the re-signed map
+			// (the manifest and the remaining items still commit to them)
+			for _, d := range []struct {
+				kind, broken string
+				drop         []base.BlockItemType
+			}{
+				{"states-item-absent", "all states stripped: the states item is not in the re-signed map, manifest and states tree still commit to the states", []base.BlockItemType{base.BlockItemStates}},
+				{"ops-item-absent", "all operations stripped: the operations item is not in the re-signed map, manifest and operations tree still commit to them", []base.BlockItemType{base.BlockItemOperations}},
+				{"states-and-ops-items-absent", "states and operations items both stripped from the re-signed map", []base.BlockItemType{base.BlockItemStates, base.BlockItemOperations}},
+				{"statestree-item-absent", "the states tree item is not in the re-signed map although manifest.StatesTree is set", []base.BlockItemType{base.BlockItemStatesTree}},
+				{"opstree-item-absent", "the operations tree item is not in the re-signed map although manifest.OperationsTree is set", []base.BlockItemType{base.BlockItemOperationsTree}},
+				{"states-and-statestree-items-absent", "states and states tree items both stripped although manifest.StatesTree is set", []base.BlockItemType{base.BlockItemStates, base.BlockItemStatesTree}},
+			} {
+				nm, err := mapWithout(rig, b.Map, d.drop...)
+				if err != nil {
+					t.Fatalf("re-sign map: %+v", err)
+				}
+
+				c := base0
+				c.Kind, c.Broken = d.kind, d.broken
+				run(c, srcroot, b.Height, nm)
 			}
 
 			for vi, v := range variants(rig) {
